@@ -278,6 +278,10 @@ fn exec(cache: AnyCache, steps: &[Step], out: &mut String) -> Result<(), BoxedEr
                         Err(_) => write!(out, " F:{x}=!").unwrap(),
                     }
                 }
+                "X" => {
+                    let h = cache.load::<P>(x)?;
+                    write!(out, " X:{x}={}", h.read().v).unwrap();
+                }
                 "p" => {
                     let r = std::panic::catch_unwind(std::panic::AssertUnwindSafe(|| cache.load::<P>(x).map(|h| h.read().v)));
                     match r {
@@ -401,6 +405,8 @@ pub struct View<'a> {
     pub hot: bool,
     /// fault plan: the k-th source access (counted over this evaluation) fails
     pub fault_at: Option<usize>,
+    /// one-shot entry fault ("F:id.ext" / "D:id"): the first access of that entry fails
+    pub fault_entry: Option<&'a str>,
     /// keys that `get_cached` look-ups (not loads) must treat as absent: entries that were created
     /// during the pass being judged (a look-up that found nothing "obtained" nothing, so the
     /// property does not say whether the looker sees an entry created later in the same pass)
@@ -418,6 +424,7 @@ pub struct Eval {
     /// registrations with the main reloader, in order (key, deps)
     pub regs: Vec<(Key, BTreeSet<Dep>)>,
     pub accesses: usize,
+    pub fault_entry_hit: bool,
 }
 
 fn parse_ids(s: &str) -> Vec<String> {
@@ -430,7 +437,7 @@ fn parse_ids(s: &str) -> Vec<String> {
 }
 
 impl Eval {
-    fn access(&mut self, v: &View, other: bool) -> Result<(), EvErr> {
+    fn access(&mut self, v: &View, other: bool, what: &str) -> Result<(), EvErr> {
         if other {
             return Ok(());
         }
@@ -439,10 +446,14 @@ impl Eval {
         if v.fault_at == Some(k) {
             return Err(EvErr::Err("injected".into()));
         }
+        if !self.fault_entry_hit && v.fault_entry == Some(what) {
+            self.fault_entry_hit = true;
+            return Err(EvErr::Err("injected".into()));
+        }
         Ok(())
     }
     fn read(&mut self, v: &View, other: bool, id: &str, ext: &str) -> Result<String, EvErr> {
-        self.access(v, other)?;
+        self.access(v, other, &format!("F:{id}.{ext}"))?;
         let src = if other { v.other_src } else { v.src };
         src.get(&(id.to_string(), ext.to_string())).cloned().ok_or_else(|| EvErr::Err("notfound".into()))
     }
@@ -478,7 +489,7 @@ impl Eval {
                 }
                 Ty::DirL => {
                     deps.insert(Dep::Dir(id.clone()));
-                    self.access(v, other)?;
+                    self.access(v, other, &format!("D:{id}"))?;
                     let src = if other { v.other_src } else { v.src };
                     if !src_is_dir(src, v.dirs, id) {
                         return Err(EvErr::Err("nodir".into()));
@@ -492,7 +503,7 @@ impl Eval {
                     let this = self.nested(v, Ty::DirL, id, true, other, &mut deps)?;
                     let mut ids = parse_ids(&this);
                     deps.insert(Dep::Dir(id.clone()));
-                    self.access(v, other)?;
+                    self.access(v, other, &format!("D:{id}"))?;
                     let src = if other { v.other_src } else { v.src };
                     if !src_is_dir(src, v.dirs, id) {
                         return Err(EvErr::Err("nodir".into()));
@@ -661,6 +672,10 @@ impl Eval {
                             Err(_) => write!(out, " F:{x}=!").unwrap(),
                         }
                     }
+                    "X" => {
+                        let val = self.nested(v, Ty::P, x, rec, other, deps)?;
+                        write!(out, " X:{x}={val}").unwrap();
+                    }
                     "p" => match self.nested(v, Ty::P, x, rec, other, deps) {
                         Ok(val) => write!(out, " p:{x}={val}").unwrap(),
                         Err(EvErr::Panic) => write!(out, " p:{x}=panic").unwrap(),
@@ -747,6 +762,8 @@ pub struct World {
     /// created a non-reloadable entry inside a pass, so reloads reached only through these are
     /// allowed but not required
     pub maybe: BTreeMap<Key, BTreeSet<Dep>>,
+    /// entry fault armed in the source and not consumed yet (model side)
+    pub armed_entry: Option<String>,
     pub pending_maybe: BTreeSet<Dep>,
     pub pending: BTreeSet<Dep>,
     /// entries whose value must never change: key -> value text (get_or_insert, non-reloadable, no reloader)
@@ -848,6 +865,7 @@ impl World {
             graph: BTreeMap::new(),
             known_entries: BTreeSet::new(),
             maybe: BTreeMap::new(),
+            armed_entry: None,
             pending_maybe: BTreeSet::new(),
             pending: BTreeSet::new(),
             pinned: BTreeMap::new(),
@@ -936,7 +954,7 @@ impl World {
         let osrc = self.other_mem.snapshot();
         let cached = |k: &Key| self.peek(k).map(|v| v.0);
         let ocached = |k: &Key| self.other.as_ref().and_then(|o| Self::peek_in(o, k)).map(|v| v.0);
-        let v = View { src: &src, dirs: &dirs, cached: &cached, other_src: &osrc, other_cached: &ocached, hot: self.hot, fault_at, hidden, unpin };
+        let v = View { src: &src, dirs: &dirs, cached: &cached, other_src: &osrc, other_cached: &ocached, hot: self.hot, fault_at, fault_entry: self.armed_entry.as_deref(), hidden, unpin };
         f(&v)
     }
 
@@ -1151,6 +1169,9 @@ impl World {
         for (k, d) in learned_maybe {
             self.maybe.insert(k, d);
         }
+        if self.armed_entry.is_some() && self.mem.0.fault_entry.lock().unwrap().is_none() {
+            self.armed_entry = None;
+        }
         self.sync();
     }
 
@@ -1213,7 +1234,8 @@ impl World {
                 let owned = toks[0] == "owned";
                 // model prediction first (pure)
                 let was_cached = self.peek(&key).is_some();
-                let (pred, deps, regs) = self.with_view(None, |v| {
+                let rel = self.mem.0.fault_at.lock().unwrap().and_then(|(at, _)| at.checked_sub(self.mem.reads()));
+                let (pred, deps, regs) = self.with_view(rel, |v| {
                     let mut e = Eval::default();
                     let (r, d) = e.fresh(v, &key, false);
                     (r, d, e.regs)
@@ -1270,6 +1292,9 @@ impl World {
                     if !owned && pred.is_ok() && (!ty.reloadable() || !self.hot) {
                         self.pinned.insert(key.clone(), pred.clone().unwrap());
                     }
+                }
+                if self.armed_entry.is_some() && self.mem.0.fault_entry.lock().unwrap().is_none() {
+                    self.armed_entry = None;
                 }
                 self.quiesce();
                 self.sync();
@@ -1492,7 +1517,23 @@ impl World {
                 };
                 self.mem.set_fault(Some((self.mem.reads() + k, kind)));
             }
-            "nofault" => self.mem.set_fault(None),
+            "faultent" => {
+                let kind = match toks.get(2).copied().unwrap_or("Other") {
+                    "NotFound" => std::io::ErrorKind::NotFound,
+                    "PermissionDenied" => std::io::ErrorKind::PermissionDenied,
+                    "Interrupted" => std::io::ErrorKind::Interrupted,
+                    "UnexpectedEof" => std::io::ErrorKind::UnexpectedEof,
+                    "InvalidData" => std::io::ErrorKind::InvalidData,
+                    _ => std::io::ErrorKind::Other,
+                };
+                *self.mem.0.fault_entry.lock().unwrap() = Some((toks[1].to_string(), kind));
+                self.armed_entry = Some(toks[1].to_string());
+            }
+            "nofault" => {
+                self.mem.set_fault(None);
+                *self.mem.0.fault_entry.lock().unwrap() = None;
+                self.armed_entry = None;
+            }
             _ => panic!("bad op {op}"),
         }
         let _ = &mut owned_alive;
